@@ -14,7 +14,7 @@ META = {
         "of the cell, offset decade, named dims); a case is non-trivial when some axis has "
         ">= 2 cells and the cells are not all equal in size along the axes."
     ),
-    "cases": {"quick": 1200, "thorough": 36000},
+    "cases": {"quick": 1200, "thorough": 108000},
     "workers": {"quick": 8, "thorough": 16},
     "timeout": {"quick": 600, "thorough": 5400},
     "deciding": [
